@@ -40,11 +40,19 @@ def loss_sfs(coal, obs):
     return float(pg.PoissonLikelihood().compute(observed=np.asarray(obs)[1:n - 1], modelled=100 * coal.sfs.mean.data[1:n - 1]))
 
 
+def loss_sfs_full(coal, obs):
+    # the complete spectrum, monomorphic classes (exactly 0 on both sides) included
+    return float(pg.PoissonLikelihood().compute(observed=np.asarray(obs), modelled=100 * coal.sfs.mean.data))
+
+
 def mk_inf(case, **over):
     two = case.get('two_params', False)
     coal = make_coal(case['n'], case['times'])
     truth = coal(*case['truth'])
-    if case.get('loss') == 'poisson':
+    if case.get('loss') == 'poisson_full':
+        obs = [float(x) * 100 for x in truth.sfs.mean.data]
+        loss = loss_sfs_full
+    elif case.get('loss') == 'poisson':
         obs = [float(x) * 100 for x in truth.sfs.mean.data]
         loss = loss_sfs
     else:
@@ -174,6 +182,12 @@ def do_shared(case):
         shared.append(stats(c1, j % 2 == 0))
         c2 = coal(a)
         fresh.append(stats(c2, j % 2 == 0))
+    # parameter sets that change the coalescent MODEL (Beta alpha) while the demography - hence every epoch - stays the same
+    mkb = lambda alpha: pg.Coalescent(n=case['n'], model=pg.BetaCoalescent(alpha=alpha), demography=pg.Demography(pop_sizes={'pop_0': {0: 2.0, 0.5: 1.0}}), parallelize=False)
+    infb = pg.Inference(bounds={'alpha': (1.05, 1.95)}, coal=mkb, loss=lambda c, o: 0.0, x0={'alpha': 1.5}, parallelize=False, pbar=False, cache=True)
+    for j, a in enumerate([1.25, 1.75, 1.5, 1.25]):
+        shared.append(stats(infb.get_coal(alpha=a), j % 2 == 0))
+        fresh.append(stats(mkb(a), j % 2 == 0))
     return {'shared': shared, 'fresh': fresh}
 
 
